@@ -59,6 +59,84 @@ class Ctx:
             raise RoleError('public item %s not found' % path)
         return k
 
+    # internal helpers: looked up by today's name first; when a rename or move makes the name disappear they are
+    # rediscovered from their characteristic effect below the public operation that uses them
+    HELPERS = {
+        'raw_cache::insert_or_touch': ('put', {'publish_excl'}),
+        'raw_cache::insert_or_update': ('set', {'publish_replace'}),
+        'raw_cache::ensure_file_touched': ('get', {'meta_times_h'}),
+        'raw_cache::touch': ('touch', {'meta_atime'}),
+        'raw_cache::prune': ('maintain', {'list_dir', 'ns_remove_file', 'meta_times'}),
+    }
+
+    def helper(self, name):
+        k = self.by_path.get(name)
+        if k is not None:
+            return k
+        ck = ('helper', name)
+        if ck in self._roles:
+            return self._roles[ck]
+        if name == 'second_chance::Update::<T>::new':
+            k = self._find_planner()
+        else:
+            role, classes = self.HELPERS[name]
+            m = self.cachedir_methods()
+            roots = m[role] if isinstance(m[role], list) else [m[role]]
+            k = self._deepest(roots, classes, name)
+        self._roles[ck] = k
+        return k
+
+    def _deepest(self, roots, classes, what):
+        """the named (non-closure) function below `roots` that reaches all of `classes` while none of its callees does"""
+        cands = set()
+        for r in roots:
+            for k in self.cg.reach(r):
+                if self.B[k]['def_kind'] in ('Fn', 'AssocFn') and k not in roots and classes <= self.cg.effects(k):
+                    cands.add(k)
+        deepest = [k for k in cands if not any(c != k and c in cands for c in self.cg.reach(k))]
+        if len(deepest) != 1:
+            raise RoleError('%s not found by name, and %d functions have its characteristic effect %s' % (what, len(deepest), sorted(classes)))
+        return deepest[0]
+
+    def _find_planner(self):
+        """the pure generic function the pruner hands its candidates to: returns a crate-local ADT"""
+        pr = self.helper('raw_cache::prune')
+        cands = []
+        for k in self.cg.local_edges.get(pr, ()):
+            b = self.B[k]
+            r = self.T[b['locals'][0]['ty']]
+            if k in self.pure and b['def_kind'] in ('Fn', 'AssocFn') and r.get('adt') and not r['adt'].startswith(('std::', 'core::', 'alloc::')) and b['arg_count'] == 2:
+                cands.append(k)
+        if len(cands) != 1:
+            raise RoleError('eviction planner not found by name, and %d pure two-argument callees of the pruner return a local type' % len(cands))
+        return cands[0]
+
+    def planner_adt(self):
+        a = self.facts['adts'].get('second_chance::Update')
+        if a is not None:
+            return self.T[a['ty']]
+        t = self.B[self.helper('second_chance::Update::<T>::new')].get('impl_self_ty')
+        if t is None:
+            raise RoleError('eviction plan type not found')
+        t = self.T[t]
+        a = self.facts['adts'].get(t.get('adt'))
+        return self.T[a['ty']] if a else t
+
+    def planner_entry_trait(self):
+        tr = self.traits.get('second_chance::Entry')
+        if tr:
+            return tr
+        used = set()
+        for r in ('cachedir_trait', 'read_trait', 'write_trait'):
+            try:
+                used.add(self.role(r))
+            except RoleError:
+                pass
+        rest = [n for n in self.traits if n not in used]
+        if len(rest) != 1:
+            raise RoleError('planner entry trait not found by name; %d other local traits' % len(rest))
+        return self.traits[rest[0]]
+
     def public_fns(self):
         return [k for k, b in self.B.items() if b['public']]
 
@@ -448,7 +526,7 @@ class Tags:
         self.roles['temp'] = self._accessor_in(q, q.prim_edges('ns_create_dir'), 0, 'temp accessor')
         # capacity accessor: feeds the planner; trigger accessor: receiver of the gating pure call
         q = ctx.explore(m['set'])
-        planner = 'local::' + ctx.B[ctx.key_of('second_chance::Update::<T>::new')]['path']
+        planner = 'local::' + ctx.B[ctx.helper('second_chance::Update::<T>::new')]['path']
         pe = q.edges(lambda ev: ev['k'] == 'pure_local' and ev['path'] == planner)
         self.planner_path = planner
         self.role_errors = {}
